@@ -44,7 +44,8 @@ META = {
                     "process-global counter advanced by constructing types, not by a generator object)",
                     "interpreter logs are compared only for programs whose first steps are well defined"],
     "probes": ["hashseed_differs", "order_differs", "history_nonempty", "history_raises", "fortran_compared",
-               "interp_compared", "same_description_objects_used_before"],
+               "interp_compared", "same_description_objects_used_before",
+               "user_types_name_their_own_index_variables"],
  },
  "C14": {
     "level": "exploration",
@@ -143,8 +144,12 @@ def run_c15(ctx):
         id_salt = tape.draw(4, "id_salt") if tape.chance(0.35, "handwritten_ids") else None
     if id_salt is not None:
         ctx.count("probe:handwritten_style_ids")
+    with tape.span("index_vars"):
+        default_index_vars = tape.chance(0.4, "default_index_vars")
+    if default_index_vars:
+        ctx.count("probe:user_types_name_their_own_index_variables")
     base = {"type": "c15", "py_values": py_values, "f_values": f_values, "want_interp": want_interp,
-            "id_salt": id_salt, "py_kw": py_kw}
+            "id_salt": id_salt, "py_kw": py_kw, "default_index_vars": default_index_vars}
     # a few more small multi-phase programs with guarded switches, Python text only (cheap)
     with tape.span("extra_py"):
         extra = []
